@@ -43,8 +43,10 @@ impl Unit {
 /// What the reference model expects for one unit.
 #[derive(Clone, Debug)]
 enum Expected {
-    /// Cache Response, payload PDUs, End of Data — byte for byte.
-    Data(Vec<WirePdu>),
+    /// Cache Response, payload PDUs, End of Data — byte for byte, except
+    /// that the End of Data timing may be any value the source reported
+    /// around this query (the statement does not fix when it is asked).
+    Data(Vec<WirePdu>, Vec<(u32, u32, u32)>),
     CacheReset { v: u8 },
     /// An Error PDU; for the unsupported-version case the code must be 4 and
     /// the version 2.
@@ -89,7 +91,7 @@ fn eod(version: u8, state: StateKey, timing: (u32, u32, u32)) -> WirePdu {
 /// the logged Full/Diff calls of this connection with the Timing call that
 /// followed each; queries beyond the logged answers are reported through
 /// `well_formed` only.
-fn model(bytes: &[u8], answers: &[(SourceCall, Option<(u32, u32, u32)>)]) -> Result<ModelOut, Violation> {
+fn model(bytes: &[u8], answers: &[(SourceCall, Vec<(u32, u32, u32)>)]) -> Result<ModelOut, Violation> {
     let mut out = ModelOut { expected: Vec::new(), well_formed: 0, ends: false, desync: false };
     let mut version: Option<u8> = None;
     let mut pos = 0usize;
@@ -151,8 +153,8 @@ fn model(bytes: &[u8], answers: &[(SourceCall, Option<(u32, u32, u32)>)]) -> Res
                                 Some(state) => {
                                     let mut pdus = vec![WirePdu::CacheResponse { v, session: state.0 }];
                                     pdus.extend(answer_pdus(call, v));
-                                    pdus.push(eod(v, *state, timing.unwrap_or((0, 0, 0))));
-                                    out.expected.push(Expected::Data(pdus));
+                                    pdus.push(eod(v, *state, timing.first().copied().unwrap_or((0, 0, 0))));
+                                    out.expected.push(Expected::Data(pdus, timing.clone()));
                                 }
                                 None => out.expected.push(Expected::CacheReset { v }),
                             }
@@ -181,8 +183,8 @@ fn model(bytes: &[u8], answers: &[(SourceCall, Option<(u32, u32, u32)>)]) -> Res
                         CallKind::Full(state) => {
                             let mut pdus = vec![WirePdu::CacheResponse { v, session: state.0 }];
                             pdus.extend(answer_pdus(call, v));
-                            pdus.push(eod(v, *state, timing.unwrap_or((0, 0, 0))));
-                            out.expected.push(Expected::Data(pdus));
+                            pdus.push(eod(v, *state, timing.first().copied().unwrap_or((0, 0, 0))));
+                            out.expected.push(Expected::Data(pdus, timing.clone()));
                         }
                         other => {
                             return Err(Violation::new(
@@ -230,6 +232,7 @@ const A_UPDATE: usize = 4;
 const A_DRAIN: usize = 5;
 const A_SPURIOUS: usize = 6;
 const A_SENDER_GONE: usize = 7;
+const A_CLIENT_EOF: usize = 8;
 
 impl C08 {
     fn gen_script(t: &mut Tape, src: &VersionedSource, cfg: &Cfg, kind: RunKind, tier: Tier) -> Vec<Unit> {
@@ -265,7 +268,17 @@ impl C08 {
                     1 => Unit::Bad { what: "framed-other-version", bytes: WirePdu::ResetQuery { v: (v + 1 + t.choose(2) as u8) % 3 }.encode() },
                     _ => Unit::Bad { what: "framed-version-too-new", bytes: WirePdu::ResetQuery { v: 3 + t.choose(253) as u8 }.encode() },
                 };
-                let at = t.choose(units.len() as u64 + 1) as usize;
+                // A PDU of another (supported) version is only unambiguous once
+                // a real query has fixed the connection's version.
+                let first_ok = if matches!(framed, Unit::Bad { what: "framed-other-version", .. }) {
+                    match units.iter().position(|u| matches!(u, Unit::Serial { .. } | Unit::Reset { .. })) {
+                        Some(p) => p + 1,
+                        None => continue,
+                    }
+                } else {
+                    0
+                };
+                let at = first_ok + t.choose((units.len() - first_ok) as u64 + 1) as usize;
                 units.insert(at, framed);
             }
         }
@@ -355,7 +368,7 @@ impl C08 {
             let v = 3 + ctx.choose(250) as u8;
             units = vec![Unit::Bad { what: "version-too-new", bytes: WirePdu::ResetQuery { v }.encode() }];
         }
-        let script: Vec<u8> = units.iter().flat_map(|u| u.bytes()).collect();
+        let mut script: Vec<u8> = units.iter().flat_map(|u| u.bytes()).collect();
         ctx.ev(1, units.len() as u64, || {
             format!(
                 "script v{} dynamic={} out_cap={} eof={}: {:?} = {}",
@@ -386,9 +399,9 @@ impl C08 {
         // ---- schedule ------------------------------------------------------
         let mut sent = 0usize;
         let mut partial_header_notifies = 0u64;
-        let weights: [u64; 8] = match kind {
+        let weights: [u64; 9] = match kind {
             // The sweep drives the grid itself (below).
-            RunKind::Sweep(_) => [1, 0, 0, 0, 0, 0, 0, 0],
+            RunKind::Sweep(_) => [1, 0, 0, 0, 0, 0, 0, 0, 0],
             RunKind::Random => [
                 1,
                 6,
@@ -398,9 +411,11 @@ impl C08 {
                 if cfg.out_cap != usize::MAX { 5 } else { 1 },
                 if ctx.chance(1, 3) { 1 } else { 0 },
                 if ctx.chance(1, 6) { 1 } else { 0 },
+                if ctx.chance(1, 5) { 1 } else { 0 },
             ],
         };
         let mut sender_gone = false;
+        let mut closed = false;
 
         if let RunKind::Sweep(i) = kind {
             // grid: version (i%3) x cut position 0..=12 ((i/3)%13) x query kind
@@ -543,6 +558,21 @@ impl C08 {
                             ctx.ev(10, 0, || "listener closed and notify sender dropped (channel closes)".into());
                         }
                     }
+                    A_CLIENT_EOF => {
+                        // The client shuts down its sending side right now:
+                        // whatever it has sent so far is the whole byte stream.
+                        // Complete queries in it must still be answered, also
+                        // those the server has not read yet or is still busy with.
+                        if !closed {
+                            closed = true;
+                            script.truncate(sent);
+                            let unread = c2s.lock().unwrap().inbox.len();
+                            let blocked = s2c.lock().unwrap().writer_waker.is_some();
+                            c2s.lock().unwrap().close_writer();
+                            counters.bump(if blocked { "fault_client_eof_while_server_blocked" } else if unread > 0 { "fault_client_eof_with_unread_queries" } else { "fault_client_eof_idle" });
+                            ctx.ev(8, sent as u64, || format!("client half-closes after {} bytes ({} unread by the server, server blocked in write: {})", sent, unread, blocked));
+                        }
+                    }
                     _ => unreachable!(),
                 }
             }
@@ -553,7 +583,6 @@ impl C08 {
             c2s.lock().unwrap().inject(&script[sent..]);
             ctx.ev(2, (script.len() - sent) as u64, || format!("deliver remaining {} bytes", script.len() - sent));
         }
-        let mut closed = false;
         let mut quiet = 0;
         let mut rounds = 0u64;
         loop {
@@ -602,15 +631,28 @@ impl C08 {
 
         let calls: Vec<SourceCall> = source.inner.lock().unwrap().calls.clone();
         let conn_calls: Vec<&SourceCall> = calls.iter().filter(|c| c.clone_id != 0).collect();
-        let mut answers: Vec<(SourceCall, Option<(u32, u32, u32)>)> = Vec::new();
-        for (i, c) in conn_calls.iter().enumerate() {
-            if matches!(c.kind, CallKind::Full(_) | CallKind::Diff(..)) {
-                let timing = conn_calls[i + 1..]
-                    .iter()
-                    .take_while(|n| !matches!(n.kind, CallKind::Full(_) | CallKind::Diff(..)))
-                    .find_map(|n| if let CallKind::Timing(t) = n.kind { Some(t) } else { None });
-                answers.push(((*c).clone(), timing));
+        // Each Full/Diff call with the timing values the source reported
+        // between the previous and the next Full/Diff call of this connection.
+        let mut answers: Vec<(SourceCall, Vec<(u32, u32, u32)>)> = Vec::new();
+        let answer_idx: Vec<usize> = conn_calls
+            .iter()
+            .enumerate()
+            .filter(|(_, c)| matches!(c.kind, CallKind::Full(_) | CallKind::Diff(..)))
+            .map(|(i, _)| i)
+            .collect();
+        for (k, i) in answer_idx.iter().enumerate() {
+            let lo = if k == 0 { 0 } else { answer_idx[k - 1] + 1 };
+            let hi = answer_idx.get(k + 1).copied().unwrap_or(conn_calls.len());
+            let mut timings: Vec<(u32, u32, u32)> = Vec::new();
+            // prefer the calls made after this answer (current behaviour), then earlier ones
+            for n in conn_calls[*i..hi].iter().chain(conn_calls[lo..*i].iter()) {
+                if let CallKind::Timing(t) = n.kind {
+                    if !timings.contains(&t) {
+                        timings.push(t);
+                    }
+                }
             }
+            answers.push((conn_calls[*i].clone(), timings));
         }
         let notified: Vec<StateKey> = conn_calls
             .iter()
@@ -645,8 +687,11 @@ impl C08 {
         let mut within: Option<(usize, usize)> = None; // (expected idx, pdu idx) inside a Data response
         let mut notifies_seen = 0u64;
         for (off, p) in &pdus {
-            if let WirePdu::SerialNotify { session, serial, .. } = p {
+            if let WirePdu::SerialNotify { session, serial, v: nv } = p {
                 notifies_seen += 1;
+                if *nv != cfg.version && *nv != 0 {
+                    counters.bump("probe_notify_in_unexpected_version");
+                }
                 if within.is_some() {
                     return Err(Violation::new(
                         "notify-inside-response",
@@ -674,7 +719,7 @@ impl C08 {
                 }
             };
             match exp {
-                Expected::Data(want) => {
+                Expected::Data(want, timings) => {
                     let j = within.map(|w| w.1).unwrap_or(0);
                     let mut same = &want[j] == p;
                     if !same {
@@ -682,14 +727,37 @@ impl C08 {
                         if let (WirePdu::Aspa { v: v1, flags: 0, customer: c1, .. }, WirePdu::Aspa { v: v2, flags: 0, customer: c2, .. }) = (&want[j], p) {
                             same = v1 == v2 && c1 == c2;
                         }
+                        // End of Data: any timing the source reported around this query
+                        if let (
+                            WirePdu::EndOfData { v: v1, session: s1, serial: n1, timing: Some(_) },
+                            WirePdu::EndOfData { v: v2, session: s2, serial: n2, timing: Some(t2) },
+                        ) = (&want[j], p) {
+                            same = v1 == v2 && s1 == s2 && n1 == n2 && (timings.is_empty() || timings.contains(t2));
+                        }
+                    } else {
+                        // parsed values agree: the bytes (reserved fields
+                        // included) must agree with the RFC layout as well
+                        let enc = want[j].encode();
+                        let got = &output[*off..(*off + enc.len()).min(output.len())];
+                        if got != &enc[..] {
+                            return Err(Violation::new(
+                                "corrupted-response",
+                                ctx_key("bytes"),
+                                format!(
+                                    "response #{} PDU #{} {}: bytes on the wire are {}, RFC layout is {}",
+                                    idx + 1, j, wire::describe(p), hex(got), hex(&enc)
+                                ),
+                            ));
+                        }
                     }
                     if !same {
                         return Err(Violation::new(
                             "corrupted-response",
                             ctx_key(""),
                             format!(
-                                "response #{} PDU #{}: got {}, expected {}",
-                                idx + 1, j, wire::describe(p), wire::describe(&want[j])
+                                "response #{} PDU #{}: got {}, expected {}{}",
+                                idx + 1, j, wire::describe(p), wire::describe(&want[j]),
+                                if matches!(p, WirePdu::EndOfData { .. }) { format!(" (timing candidates {:?})", timings) } else { String::new() }
                             ),
                         ));
                     }
@@ -701,7 +769,7 @@ impl C08 {
                     }
                 }
                 Expected::CacheReset { v } => {
-                    if *p != (WirePdu::CacheReset { v: *v }) {
+                    if *p != (WirePdu::CacheReset { v: *v }) || output[*off..*off + 8] != (WirePdu::CacheReset { v: *v }).encode()[..] {
                         return Err(Violation::new(
                             "corrupted-response",
                             ctx_key(""),
@@ -713,11 +781,11 @@ impl C08 {
                 Expected::Error { unsupported_version } => {
                     match p {
                         WirePdu::Error { v, code, .. } => {
-                            if *unsupported_version && (*code != 4 || *v != 2) {
+                            if *unsupported_version && (*code != 4 || *v > 2) {
                                 return Err(Violation::new(
                                     "wrong-error",
                                     "unsupported-version",
-                                    format!("unsupported version must be answered with code 4 in version 2, got code {} version {}", code, v),
+                                    format!("unsupported version must be answered with code 4 in a supported version, got code {} version {}", code, v),
                                 ));
                             }
                         }
@@ -773,7 +841,7 @@ impl C08 {
         counters.add("responses_checked", idx as u64);
         for e in &m.expected {
             match e {
-                Expected::Data(_) => counters.bump("probe_data_response"),
+                Expected::Data(..) => counters.bump("probe_data_response"),
                 Expected::CacheReset { .. } => counters.bump("probe_cache_reset"),
                 Expected::Error { unsupported_version: true } => counters.bump("probe_error_unsupported_version"),
                 Expected::Error { .. } => counters.bump("probe_error_response"),
